@@ -32,9 +32,11 @@ func TempPath(tag string) string {
 
 // Build builds an in-memory segment with the given chunk mode.
 func Build(b spec.Batch, chunkMode uint32) (segment.Segment, uint64, error) {
-	old := zap.DefaultChunkMode
-	zap.DefaultChunkMode = chunkMode
-	defer func() { zap.DefaultChunkMode = old }()
+	// concurrent builds all use the default mode: the global is then only read
+	if old := zap.DefaultChunkMode; old != chunkMode {
+		zap.DefaultChunkMode = chunkMode
+		defer func() { zap.DefaultChunkMode = old }()
+	}
 	return Plugin.New(b.Documents())
 }
 
